@@ -224,7 +224,7 @@ func c05Malformed(sp *spec.Spec, m *spec.Method, ex *rt.Exchange) *Verdict {
 			}
 		}
 	}
-	tags := mergeTags(Explain(sp, m, c.Sent), siteTags(sp, m, m.Payload, "", true))
+	tags := mergeTags(Explain(sp, m, c.Sent), paramTagsOnly(c.Class, siteTags(sp, m, m.Payload, "", true)))
 	if ex.StubIn != nil {
 		v.add(mkKey("leaked", "malformed-request-reached-stub", c.Class, tags), "malformed request (%s) reached user code", c.Class)
 		return v
